@@ -271,9 +271,17 @@ func (n *VerifHsmNode) Dump(pktName func(stage uint8, b []byte) string, addrName
 				cv = int(hi.ConnectionState.peerCert.Certificate.Version())
 			}
 		}
-		idx = append(idx, fmt.Sprintf("%d:%d:%d:%s:%s:%d:%s:%s:%s", k, hi.localIndexId, hi.remoteIndexId, timeName(hi.lastHandshakeTime),
+		pd, mv := 0, 0
+		if hi.pendingDeletion.Load() {
+			pd = 1
+		}
+		if hi.ConnectionState != nil && hi.ConnectionState.myCert != nil {
+			mv = int(hi.ConnectionState.myCert.Version())
+		}
+		idx = append(idx, fmt.Sprintf("%d:%d:%d:%s:%s:%d:%s:%s:%s:%d", k, hi.localIndexId, hi.remoteIndexId, timeName(hi.lastHandshakeTime),
 			strings.Join(as, "+"), ini*10+cv, uName(hi.GetRemote()),
-			pktName(handshakePacketStage0, hi.HandshakePacket[handshakePacketStage0]), pktName(handshakePacketStage2, hi.HandshakePacket[handshakePacketStage2])))
+			pktName(handshakePacketStage0, hi.HandshakePacket[handshakePacketStage0]), pktName(handshakePacketStage2, hi.HandshakePacket[handshakePacketStage2]),
+			pd*10+mv))
 	}
 	sb.WriteString(" I[" + strings.Join(idx, ",") + "]")
 	var ridx []string
@@ -314,4 +322,28 @@ func (n *VerifHsmNode) MyAddrFor(dst netip.Addr) netip.Addr {
 		}
 	}
 	return n.F.myVpnAddrs[0]
+}
+
+// TrafficCheck sets the traffic flags the connection manager reads for the tunnel with the given local index and runs
+// one doTrafficCheck for it (what the trafficTimer does when the tunnel's entry expires).
+func (n *VerifHsmNode) TrafficCheck(localIndex uint32, in, out bool) string {
+	cm := n.F.connectionManager
+	cm.hostMap.RLock()
+	hi := cm.hostMap.Indexes[localIndex]
+	cm.hostMap.RUnlock()
+	if hi == nil {
+		return "none"
+	}
+	hi.in.Store(in)
+	hi.out.Store(out)
+	cm.doTrafficCheck(localIndex, []byte(""), make([]byte, 12, 12), make([]byte, mtu), time.Now())
+	return "ok"
+}
+
+// ReloadCAPool is PKI.reloadCAPool (the CA / blocklist part of a config reload).
+func (n *VerifHsmNode) ReloadCAPool(c *config.C) error {
+	if err := n.F.pki.reloadCAPool(c); err != nil {
+		return err
+	}
+	return nil
 }
